@@ -100,7 +100,8 @@ drop (int i)
 static void *FK (int f) { return (void *)(uintptr_t)f; }
 
 static const pixman_format_code_t gfmts[] = { PIXMAN_a8, PIXMAN_a1, PIXMAN_a4, PIXMAN_a8r8g8b8, PIXMAN_x8r8g8b8, PIXMAN_a8b8g8r8,
-					      PIXMAN_b8g8r8a8, PIXMAN_r5g6b5, PIXMAN_a4r4g4b4 };
+					      PIXMAN_b8g8r8a8, PIXMAN_r5g6b5, PIXMAN_a4r4g4b4, PIXMAN_a8r8g8b8_sRGB, PIXMAN_a2r10g10b10,
+					      PIXMAN_r8g8b8a8, PIXMAN_a1r5g5b5 };
 static const pixman_format_code_t mfmts[] = { PIXMAN_a8, PIXMAN_a1, PIXMAN_a4, PIXMAN_a8r8g8b8 };
 
 static void
@@ -473,7 +474,7 @@ generate (uint64_t seed, int tier, const char *property, scenario_t *sc)
     sc_set (sc, "chain", chains[rng_n (&r, 5)]);
     sc_set (sc, "table_slots", HASH_SIZE);
     for (i = 0; i < NIMG; i++)
-	sc_add (sc, G_IMG, 5, (int64_t)i, (int64_t)rng_n (&r, 9), (int64_t)rng_range (&r, 1, 8), (int64_t)rng_range (&r, 1, 8), (int64_t)(rng_u64 (&r) >> 20));
+	sc_add (sc, G_IMG, 5, (int64_t)i, (int64_t)rng_n (&r, 13), (int64_t)rng_range (&r, 1, 8), (int64_t)rng_range (&r, 1, 8), (int64_t)(rng_u64 (&r) >> 20));
     for (i = 0; i < n_ops; i++)
     {
 	int roll = (int)rng_n (&r, 100);
